@@ -33,15 +33,25 @@ package api
 //
 // Oracle (written from the property statement):
 //
-//	O1 (both modes; the api.Server's mutex is observed through a wrapper)
-//	  C18.two-holders...            a Lock returned nil while another Lock that
-//	                                returned nil has not yet called Unlock
-//	                                (sub-classes name the constellation, see c18Env.enter)
+//	O1 (both modes; the mutexes are observed through a wrapper around
+//	    cluster.Cluster.Mutex, so the api.Server's own mutex is covered too)
+//	  a Lock returned nil while another Lock that returned nil has not yet called
+//	  Unlock; the class names the constellation (see c18Env.enter):
+//	  C18.two-holders-same-member       two goroutines of ONE member
+//	  C18.two-holders-during-unlock     ... while an Unlock of that member still runs
+//	  C18.two-holders-after-late-delete the lock key of one of the two was deleted
+//	                                    during its tenure by a DeleteRange that an
+//	                                    EARLIER call of the same member (timed-out
+//	                                    Unlock / clean-up of a failed Lock) had sent
+//	                                    and given up on   [FINDING on the unchanged tree]
+//	  C18.two-holders-holder-key-gone   a holder's key is missing for another reason
+//	  C18.two-holders                   anything else
 //	  C18.lock-never-returns        a Lock/Unlock/request did not return within the bound
+//	  C18.lock-held-after-return    every task returned but a Lock was never followed by Unlock
 //	  C18.failed-lock-blocks-others after faults stopped and everybody finished, a
 //	                                member that never took part cannot acquire because a
 //	                                lock key left by a FAILED ACQUISITION of another
-//	                                member is still in the store
+//	                                member is still in the store   [FINDING on the unchanged tree]
 //	  C18.mutex-not-free            same, without such a key
 //	O2 (api mode, runs in which no request was answered 5xx / aborted)
 //	  C18.unexpected-status         a status the statement does not allow for the request
@@ -50,16 +60,33 @@ package api
 //	  C18.version-gap               the versions of the k successes are not v0+1..v0+k
 //	  C18.final-state-mismatch      final listing != fold of the successes in version order
 //	  C18.final-version-mismatch    stored version != v0+k
+//	  C18.final-listing-unavailable the listing cannot be read after the faults are over
 //	  C18.not-linearizable          the history (mutations with their versions, gets, lists)
 //	                                has no linearisation against a map+counter model (porcupine)
 //	  C18.version-reads-not-linearizable  the versions of the successes and the
 //	                                X-Config-Version values of all other answers have no
 //	                                linearisation against a plain counter
-//	  C18.server-error-without-fault a 5xx answer in a run without any fault and with a
-//	                                request time-out no scheduling delay can reach
-//	O2' (api mode, runs with 5xx answers)
+//	  C18.server-error-without-fault a 5xx answer / aborted request in a run without any
+//	                                fault and with a request time-out (>= 30 min) that no
+//	                                scheduling delay (<= 20 x 60 s) can reach
+//	O2' (api mode, runs with 5xx answers / aborted requests)
 //	  C18.version-not-distinct / C18.version-not-increasing (real-time order) over the
-//	  successful mutations only.
+//	  successful mutations only;
+//	  C18.version-rollback-by-late-write  the same two rules, when the store history shows
+//	                                that the stored version went backwards: the version
+//	                                write of a request that was answered 5xx (client gave
+//	                                up) was applied after later mutations   [FINDING on the
+//	                                unchanged tree]
+//
+// The three classes marked FINDING fire on the unchanged tree (they share one
+// root: a request the etcd client gave up on is applied later, and neither the
+// lock key nor the version write is fenced against that). C18_KNOWN=<classes>
+// (development aid) turns listed classes into probes "suppressed:<class>".
+//
+// Observation (not in the statement, probe request_aborted_by_panic_outside_recoverer):
+// the X-Config-Version attacher middleware runs OUTSIDE the recoverer middleware, so a
+// cluster error in its _getVersion panics out of the router (net/http would close
+// the connection without an answer instead of sending 503).
 //
 // Oracle leniency (statement silent / two readings), also in Assumptions:
 //   * lease expiry while holding is not generated; the leases are MaxLeaseTTL;
@@ -343,6 +370,9 @@ type c18Member struct {
 	srv      *Server
 
 	lastOp       string // lock-ok | lock-fail | unlock-ok | unlock-fail
+	lastOpRev    int64  // store revision when the member's last Lock/Unlock call returned
+	tenureRev    int64  // lastOpRev as it was when the current tenure's Lock call returned
+	unlocking    int    // Unlock calls in progress
 	failedLock   int
 	failedUnlock int
 }
@@ -616,8 +646,11 @@ func (o *c18ObsMutex) LockAs(id string) error {
 	waited := len(e.holders) > 0
 	err := o.inner.Lock()
 	// no gate between the return of Lock and the bookkeeping
+	prevRev := o.m.lastOpRev
+	o.m.lastOpRev = e.store.Rev()
 	if err == nil {
 		o.m.lastOp = "lock-ok"
+		o.m.tenureRev = prevRev
 		e.acquired++
 		if waited {
 			e.contended++
@@ -636,7 +669,10 @@ func (o *c18ObsMutex) LockAs(id string) error {
 func (o *c18ObsMutex) UnlockAs(id string) error {
 	e := o.e
 	e.leave(id)
+	o.m.unlocking++
 	err := o.inner.Unlock()
+	o.m.unlocking--
+	o.m.lastOpRev = e.store.Rev()
 	if err == nil {
 		o.m.lastOp = "unlock-ok"
 	} else {
@@ -693,26 +729,49 @@ func (e *c18Env) describe() string {
 	return b.String()
 }
 
+// lateDelete reports a deletion of m's lock key that was applied after m's
+// previous Lock/Unlock call had returned (m has not called Unlock since).
+func (e *c18Env) lateDelete(m *c18Member) string {
+	key := e.prefix + m.leaseHex
+	for _, rec := range e.store.History() {
+		if rec.Rev <= m.tenureRev {
+			continue
+		}
+		for _, ev := range rec.Events {
+			if ev.Type != 0 && string(ev.Kv.Key) == key {
+				return fmt.Sprintf("the lock key %s of %s was deleted in store revision %d at %v, after the previous Lock/Unlock call of %s had returned (store revision %d)\n", key, m.name, rec.Rev, rec.At.Sub(e.t0), m.name, m.tenureRev)
+			}
+		}
+	}
+	return ""
+}
+
 func (e *c18Env) enter(id string, m *c18Member) {
 	r := e.r
 	e.note("%v %s ENTER", r.Now(), id)
 	if len(e.holders) > 0 && !e.twoHolders {
 		e.twoHolders = true
 		h := e.holders[0]
-		class := "C18.two-holders"
+		class, extra := "C18.two-holders", ""
 		switch {
 		case h.m == m:
 			// the process-local lock did not serialise two goroutines of one member
 			class = "C18.two-holders-same-member"
-		case (!e.hasKey(h.m) && h.m.failedUnlock > 0) || (!e.hasKey(m) && m.failedUnlock > 0):
-			// the lock key of one of the two was deleted under it after an Unlock of
-			// its member had failed: that Unlock's DeleteRange was applied late and
-			// hit the key of a LATER tenure (the key name is per member, not per tenure)
-			class = "C18.two-holders-after-failed-unlock"
+		case h.m.unlocking > 0 || m.unlocking > 0:
+			// a goroutine got in while an Unlock of its own member is still running
+			class = "C18.two-holders-during-unlock"
+		case (e.lateDelete(h.m) != "" && h.m.failedLock+h.m.failedUnlock > 0) || (e.lateDelete(m) != "" && m.failedLock+m.failedUnlock > 0):
+			// the lock key of one of the two was deleted during its present tenure,
+			// i.e. after the member's previous Lock/Unlock call had returned: by a
+			// DeleteRange which an EARLIER call of that member (a timed-out Unlock, or
+			// the clean-up of a failed Lock) had sent and given up on, applied late.
+			// The key name is per member, not per tenure.
+			class = "C18.two-holders-after-late-delete"
+			extra = e.lateDelete(h.m) + e.lateDelete(m)
 		case !e.hasKey(h.m) || !e.hasKey(m):
 			class = "C18.two-holders-holder-key-gone"
 		}
-		c18Violate(r, class, "%s acquired the mutex at %v while %s (holding since %v) has not called Unlock\n%s", id, r.Now(), h.id, h.at, e.describe())
+		c18Violate(r, class, "%s acquired the mutex at %v while %s (holding since %v) has not called Unlock\n%s%s", id, r.Now(), h.id, h.at, extra, e.describe())
 	}
 	e.holders = append(e.holders, c18Holder{id: id, m: m, at: r.Now()})
 }
@@ -1631,6 +1690,14 @@ func c18JudgeAPI(r *sim.Run, e *c18Env, sc *c18Scenario, init c18State, hist []c
 		case 404:
 			if h.in.op != c18OpGet {
 				r.Probe("mutation_missing_404")
+			}
+		}
+	}
+	if sawFailure && len(sc.Faults) == 0 && sc.ReqTimeoutMs >= 1_800_000 {
+		for _, h := range hist {
+			if h.failed {
+				r.Violate("C18.server-error-without-fault", "%s: %s in a run without faults and with request time-out %d ms\n%s", h.task, c18Describe(h.in, h.out), sc.ReqTimeoutMs, describe())
+				return
 			}
 		}
 	}
